@@ -30,6 +30,7 @@
 #include <cstdlib>
 #include <map>
 #include <string>
+#include <sys/time.h>
 #include <unistd.h>
 
 namespace sweep
@@ -65,6 +66,12 @@ namespace sweep
 
     static sigjmp_buf jmp;
     static volatile sig_atomic_t in_chunk = 0;
+    // watchdog on the CPU time of the process (a call that loops burns CPU; a process that is merely descheduled on a busy machine does not)
+    static void arm(int seconds)
+    {
+        struct itimerval tv = { { 0, 0 }, { seconds, 0 } };
+        setitimer(ITIMER_VIRTUAL, &tv, nullptr);
+    }
     static void on_signal(int)
     {
         if (in_chunk)
@@ -160,7 +167,7 @@ namespace sweep
         memset(&sa, 0, sizeof sa);
         sa.sa_handler = on_signal;
         sa.sa_flags = SA_NODEFER;
-        for (int s : { SIGSEGV, SIGBUS, SIGILL, SIGFPE, SIGALRM, SIGABRT })
+        for (int s : { SIGSEGV, SIGBUS, SIGILL, SIGFPE, SIGALRM, SIGVTALRM, SIGABRT })
             sigaction(s, &sa, nullptr);
         auto& reg = vd::registry();
         static char line[4096];
@@ -410,7 +417,7 @@ namespace sweep
                             continue;
                         }
                         in_chunk = 1;
-                        alarm(3);
+                        arm(3);
                         for (; r0 < 4096; r0 = r0 + 1)
                         {
                             uint64_t base = cb + r0 * rowspan + off;
@@ -427,7 +434,7 @@ namespace sweep
                             if (sc.first > 0 || mode == "ulp" || mode == "ulp1")
                                 consider(base, s, sc.first, sc.second, false);
                         }
-                        alarm(0);
+                        arm(0);
                         in_chunk = 0;
                         break;
                     }
@@ -454,11 +461,11 @@ namespace sweep
                         continue;
                     }
                     in_chunk = 1;
-                    alarm(3);
+                    arm(3);
                     for (; r0 < nrows; r0 = r0 + 1)
                     {
                         if ((r0 & 4095) == 4095)
-                            alarm(3);
+                            arm(3);
                         uint64_t u = splitmix(st);
                         uint64_t span = j.hi - j.lo + 1;
                         uint64_t mag = j.lo + (span ? u % span : 0);
@@ -490,7 +497,7 @@ namespace sweep
                         if (sc.first > 0 || mode == "ulp" || mode == "ulp1")
                             consider(base, step, sc.first, sc.second, false);
                     }
-                    alarm(0);
+                    arm(0);
                     in_chunk = 0;
                     break;
                 }
